@@ -191,5 +191,22 @@ elif m.startswith("revert-"):
     for name, rel, old, new in F7:
         if name == which:
             sub(rel, new, old)
+elif m in ("refactor1", "refactor2"):
+    # benign refactor: the mutating statements of SyncState.mark_changed move into a helper (new rows, all under the same locks);
+    # refactor2 additionally calls the helper after the `with` of SyncManager.do (a NEW unlocked row: must stay a violation)
+    sub("sync/state.py","""    def mark_changed(self, side, ent):
+        ent[side].changed = time.time()""","""    def mark_changed(self, side, ent):
+        self._bump_changed(side, ent)
+
+    def _bump_changed(self, side, ent):
+        ent[side].changed = time.time()""")
+    if m == "refactor2":
+        sub("sync/manager.py","""        if need_to_sleep:
+            time.sleep(self.aging)
+""","""        if need_to_sleep:
+            time.sleep(self.aging)
+        elif sync:
+            self.state._bump_changed(0, sync)
+""")
 else:
     raise SystemExit("unknown "+m)
